@@ -33,6 +33,7 @@ UNIT = dict(
         dict(key="Stage", file=STAGE, kind="struct", name="Stage", rules=PUBF),
         dict(key="StagesBuilder", file=STAGE, kind="struct", name="StagesBuilder", rules=PUBF),
         dict(text=open(__file__.replace("unit.py", "lib_a.rs")).read()),
+        dict(key="Stage::new", file=STAGE, kind="fn", name="new", owner=r"impl Stage\b", emit_owner="impl Stage", sig_prefix="#[verifier::external_body]", assumed="derive(Default) of Stage (SmallVec::default) yields no groups"),
         dict(key="Conflict::add", file=STAGE, kind="fn", name="add", owner=r"impl Conflict$", emit_owner="impl Conflict"),
         dict(key="check_intersection", file="src/dispatch/util.rs", kind="fn", name="check_intersection",
              drop_generics=True,
@@ -45,5 +46,10 @@ UNIT = dict(
         dict(key="StagesBuilder::insertion_target", file=STAGE, kind="fn", name="insertion_target", owner=SB, emit_owner="impl StagesBuilder",
              drop_generics=True, sig_prefix=NOISO + " #[verifier::allow_complex_invariants]",
              sig_rules=[(r"\bnew_reads\s*:\s*R\b", "new_reads: &Vec<ResourceId>"), (r"\bnew_writes\s*:\s*W\b", "new_writes: &Vec<ResourceId>")]),
+        dict(key="StagesBuilder::add_barrier", file=STAGE, kind="fn", name="add_barrier", owner=SB, emit_owner="impl StagesBuilder"),
+        dict(key="StagesBuilder::add_stage", file=STAGE, kind="fn", name="add_stage", owner=SB, emit_owner="impl StagesBuilder"),
+        dict(key="StagesBuilder::add_group", file=STAGE, kind="fn", name="add_group", owner=SB, emit_owner="impl StagesBuilder"),
+        dict(key="StagesBuilder::insert", file=STAGE, kind="fn", name="insert", owner=SB, emit_owner="impl StagesBuilder",
+             sig_rules=[(r"\binsert<T>", "insert<T: System>")], body_rules=[(r"Box::new\(system\)", "vx_boxed(system)")]),
     ],
 )
